@@ -6,7 +6,7 @@ META = {
     "property_id": "C45",
     "level": "model_checking",
     "technique": "TLA+ specs ENR.tla (EIP-778 record grammar on RLP.tla, uninterpreted signatures) and Discv5.tla (symbolic-crypto state machine of the v5 wire codec) model-checked with TLC; TLC-enumerated record mutations and TLC-sampled attack schedules replayed on p2p/enr, p2p/enode and real v5wire.Codec instances; recorded random records/schedules validated against ENRTrace.tla / Discv5Trace.tla",
-    "text": "Records: ENR.tla defines decoding (size limit, sorted unique keys, canonical seq, values carried as raw RLP), the signed content and the v4 identity rule with signatures as an uninterpreted set of genuinely produced triples. The harness really signs base records (API-built and hand-crafted ones, incl. exactly 300/301 bytes); TLC enumerates every single-byte edit and structural mutation (swap, duplicate, drop, pad, non-canonical seq, raw values), checks accepted => re-encodes identically, sorted, within limit, and the driver executes each on rlp.DecodeBytes(&enr.Record) + enode.New. Sessions: Discv5.tla models Encode (message / WHOAREYOU / handshake) and Decode of any number of nodes with sessions, pending challenges, restarts, handshake timeout and a network that replays, redirects and tampers (IV, nonce, source id, id-nonce, id-signature, ciphertext); TLC checks exhaustively (4 packets, 2 nodes) that every accepted message is unmodified, from the claimed peer, for this node, under the receiver's current session negotiated over its own genuine challenge. Guided TLC simulation produces attack schedules that are executed step by step on real codecs (3 nodes, all six message kinds), comparing every Decode outcome and the identity of every delivered message; random schedules recorded from the real codecs are validated with all invariants evaluated after each step.",
+    "text": "Records: ENR.tla defines decoding (size limit, sorted unique keys, canonical seq, values carried as raw RLP), the signed content and the v4 identity rule with signatures as an uninterpreted set of genuinely produced triples. The harness really signs base records (API-built and hand-crafted ones, incl. exactly 300/301 bytes); TLC enumerates every single-byte edit and structural mutation (swap, duplicate, drop, pad, non-canonical seq, raw values), checks accepted => re-encodes identically, sorted, within limit, and the driver executes each on rlp.DecodeBytes(&enr.Record) + enode.New. Sessions: Discv5.tla models Encode (message / WHOAREYOU / handshake) and Decode of any number of nodes with sessions, pending challenges, restarts, handshake timeout and a network that replays, redirects, spoofs source addresses, tampers in flight (IV, version, nonce, source id, id-nonce, id-signature, ciphertext) and forges handshake packets in a node's name with its own keys; TLC checks exhaustively (4 packets, 2 nodes) that every accepted message is unmodified, from the claimed peer, for this node, under the receiver's current session negotiated over its own genuine challenge. Guided TLC simulation produces attack schedules that are executed step by step on real codecs (3 nodes, all six message kinds), comparing every Decode outcome and the identity of every delivered message; random schedules recorded from the real codecs are validated with all invariants evaluated after each step.",
     "note": "Trusts TLC, secp256k1/keccak/AES-GCM as primitives (signature validity is 'was really signed' in the model), the byte offsets used by the harness to tamper with packet regions, and that a packet unmasked with the wrong node id is rejected with overwhelming probability. Tampering classes are region-level (one random bit per region); WHOAREYOU packets are unauthenticated by design and accepted by Decode (their tampering is caught at the handshake).",
     "design_ref": "3.1 C45 (record part), 3.7 C45 (session part)",
 }
